@@ -159,17 +159,21 @@ _M_INT = ["1", "-1", "2", "3", "9223372036854775807", "-9223372036854775807"]
 _M_FLOAT = ["0.1", "0.2", "0.3", "0.5", "0.7"]
 
 
-def _gen_machine(rng, typ, depth):
+def _gen_machine(rng, typ, depth, small=False):
     if depth <= 0 or rng.random() < 0.2:
         if typ == "int":
             if rng.random() < 0.6:
-                return T.ident(rng.choice(["a", "b", "c"]))
-            return T.lit("int", rng.choice(_M_INT))
+                return T.ident(rng.choice(["b", "c"] if small else ["a", "b", "c"]))
+            return T.lit("int", rng.choice(["1", "2", "3", "7", "21"] if small else _M_INT))
         if rng.random() < 0.5:
             return T.ident("f")
         return T.lit("float", rng.choice(_M_FLOAT))
     op = rng.choice(["add", "add", "mul", "sub"])
-    return ("bin", op, _gen_machine(rng, typ, depth - 1), _gen_machine(rng, typ, depth - 1))
+    if typ == "float":
+        # mixed arithmetic: whole sub-groups may be integer-typed (f add (b add c))
+        lt, rt = rng.choice([("float", "float"), ("float", "float"), ("float", "int"), ("int", "float")])
+        return ("bin", op, _gen_machine(rng, lt, depth - 1, True), _gen_machine(rng, rt, depth - 1, True))
+    return ("bin", op, _gen_machine(rng, typ, depth - 1, small), _gen_machine(rng, typ, depth - 1, small))
 
 
 def _short(v):
